@@ -517,8 +517,10 @@ class DocumentationAggregator(CMakeListener):
         :param docstring: Cleaned docstring.
         """
 
-        args = ctx.single_argument() + ctx.compound_argument()
-        args = [val.getText() for val in args]
+        # Keep the arguments in the order they were written, single and
+        # compound (parenthesized) arguments may be interleaved
+        args = [child.getText() for child in ctx.getChildren()
+                if isinstance(child, (CMakeParser.Single_argumentContext, CMakeParser.Compound_argumentContext))]
         self.documented.append(GenericCommandDocumentation(
             command_name, docstring, args))
 
